@@ -243,9 +243,10 @@ def run(ctx):
         #  reported there, with its signature)
         reported = any(x in failing and not failing[x][1] for x in (j, j + 1, j + 2))
         if drained and len(set(finals)) > 1 and not reported:
-            # only the trashbin differs: 'maximum' cancelled an added+removed pair that the other
-            # policies applied (object created, then trashed until its retention is over)
-            f33 = len(set(lives)) == 1 and cases[j]["retention"] and finals[0] == finals[1]
+            # only the trashbin differs: a merge cancelled an added+removed pair that the other policies
+            # applied (object created, then trashed until its retention is over), or a 'modified' merged
+            # into / dropped before the 'removed' leaves the trashed object with other attribute values
+            f33 = len(set(lives)) == 1 and cases[j]["retention"]
             violations.append({"sig": "F33-cancelled-pair-never-trashed" if f33 else None, "replay_kind": "client_case",
                                "case": cliprops.common.enc(cases[j]),
                                "what": f"final local data differ between remediation policies on history {j // 3}"})
